@@ -8,7 +8,7 @@ use crate::mdesc::MDesc;
 use crate::poleval::{eval_assign, Atom, MPol};
 use crate::refscript::{self, verify_input, Flags};
 use crate::runner::{fail, guard, Check, Failure, Report, Src, Tier};
-use crate::world::{make_tx, sign_real, TxCtx, World, WorldSat};
+use crate::world::{make_tx_w, sign_real, TxCtx, World, WorldSat};
 use bitcoin::hashes::Hash;
 use bitcoin::sighash::Prevouts;
 use bitcoin::{absolute, ScriptBuf, Sequence, Witness};
@@ -113,7 +113,9 @@ fn conds_from_trace(tr: &refscript::Trace) -> Vec<Cond> {
         v.push(Cond::After(*a as u32));
     }
     for o in &tr.csv_args {
-        v.push(Cond::Older(*o as u32));
+        // the interpreter reports a relative::LockTime: the unit flag and the 16-bit value,
+        // i.e. exactly the bits BIP68/112 compare
+        v.push(Cond::Older(*o as u32 & 0x0040_ffff));
     }
     v.sort();
     v
@@ -193,7 +195,7 @@ impl Check for C13 {
         let scripts = d.scripts().map_err(|e| Failure { sig: "mirror-encode".into(), msg: e })?;
         let n_inputs = src.range(1, 2);
         let idx = src.below(n_inputs);
-        let mut t = make_tx(&scripts.spk, world.lock_time, world.sequence, n_inputs, idx);
+        let mut t = make_tx_w(&scripts.spk, &world, n_inputs, idx);
         let sat = sign_real(&d, &world, &t).map_err(|e| Failure { sig: "sign".into(), msg: e })?;
         let mall = src.chance(1, 5);
         let r = if mall { lib.get_satisfaction_mall(&sat) } else { lib.get_satisfaction(&sat) };
@@ -296,7 +298,7 @@ impl Check for C13 {
                 let sq = *src.pick(&sqs);
                 var_desc = format!("locks: nLockTime={} nSequence={:#x}", lt, sq);
                 let w2 = World { lock_time: lt, sequence: sq, ..world.clone() };
-                t = make_tx(&scripts.spk, lt, sq, n_inputs, idx);
+                t = crate::world::make_tx_v(&scripts.spk, lt, sq, n_inputs, idx, world.tx_version);
                 let sat2 = sign_real(&d, &w2, &t).map_err(|e| Failure { sig: "sign".into(), msg: e })?;
                 swap_sigs(&mut items, &sat, &sat2);
                 sat_used = sat2;
@@ -367,7 +369,7 @@ impl Check for C13 {
                             got.iter().any(|c| matches!(c, Cond::Hash(_, d2, _) if keys::hex(d2) == hex))
                         }
                         Atom::After(n) => got.iter().any(|c| matches!(c, Cond::After(m) if m == n)),
-                        Atom::Older(n) => got.iter().any(|c| matches!(c, Cond::Older(m) if m == n)),
+                        Atom::Older(n) => got.iter().any(|c| matches!(c, Cond::Older(m) if *m == *n & 0x0040_ffff)),
                     };
                     if !eval_assign(&mp, &truth) {
                         return fail(&format!("conditions-do-not-satisfy-policy/{}", d.kind()), format!("reported constraints {:?} do not satisfy the lifted policy {}", got, pol));
